@@ -40,7 +40,7 @@ m = {
                [{"name": e, "path": "harness/src/engines", "serves_properties": sorted(p), "kind_free_text": "differential correspondence (real crate vs compiled Lean model) + IMPL-vs-SPEC oracle"} for e, p in sorted(engines.items())],
     "checks": checks,
     "not_applicable": [{"property_id": p, "reason": r} for p, r in sorted(NOT_YET.items()) if p not in PROPS],
-    "notes": "Single entry ./check. VERIF_SEED seeds every generator (splitmix64); VERIF_TIER overrides the tier. Known findings: known_findings.json (never written at run time).",
+    "notes": "Single entry ./check. VERIF_SEED seeds every generator (splitmix64); VERIF_TIER is the tier when the command line names none (the registered commands name it). Known findings: known_findings.json (never written at run time).",
 }
 json.dump(m, open(os.path.join(ROOT, "MANIFEST.json"), "w"), indent=1)
 print("MANIFEST.json:", len(checks), "checks,", len(m["not_applicable"]), "not yet claimed")
